@@ -861,7 +861,31 @@ def rewriters_check(tier, seed):
     trials = 120 if tier == "quick" else 2000
     n = nontriv = 0
     viol, samples = [], []
-    for t in range(trials):
+    # the partitions on every nesting shape of one connective over four atoms (right-nested, left-nested, balanced, with a
+    # shared and with a repeated sub-formula) and on mixed nestings: the yielded formulas together are equivalent to the
+    # formula and none of them is itself an application of the connective
+    a_, b_, c_, d_ = [m.Symbol("pa%d" % i) for i in range(4)]
+    for mk, other, part, nm in ((m.Or, m.And, disjunctive_partition, "disj-partition"), (m.And, m.Or, conjunctive_partition, "conj-partition")):
+        inner = mk(b_, c_)
+        shapes = [mk(a_, mk(b_, c_)), mk(mk(a_, b_), c_), mk(mk(a_, b_), mk(c_, d_)), mk(a_, mk(b_, mk(c_, d_))), mk(mk(mk(a_, b_), c_), d_),
+                  mk(inner, other(a_, inner)), mk(mk(a_, inner), mk(inner, d_)), mk(a_, other(b_, mk(c_, d_))), mk(other(a_, b_), mk(c_, other(d_, a_))),
+                  mk(a_, m.Not(mk(b_, c_)), mk(d_, a_)), mk(a_, b_, mk(c_, d_, mk(a_, m.Not(b_))))]
+        for f in shapes:
+            n += 1
+            got = list(part(f))
+            r = mk(got) if got else mk([])
+            cex = equiv_exact(f, r, rng)
+            isapp = (lambda x: x.is_or()) if nm.startswith("disj") else (lambda x: x.is_and())
+            if cex is not None:
+                viol.append({"key": nm, "formula": f.serialize(), "result": r.serialize(), "interpretation": cex})
+                break
+            if any(isapp(x) for x in got):
+                viol.append({"key": nm + "-shape", "formula": f.serialize(), "result": [x.serialize() for x in got],
+                             "problem": "a yielded formula is itself an application of the connective"})
+                break
+        if viol:
+            break
+    for t in range(trials if not viol else 0):
         f = bg.formula(rng.randint(1, 3))
         n += 1
         if f.args():
@@ -988,7 +1012,8 @@ def rewriters_check(tier, seed):
                     "sub-formulas and nested, shadowing quantifiers over Bool and BV2; every rewriter's result compared with the "
                     "input on all interpretations (quantifiers evaluated exactly) and checked for its advertised shape; "
                     "propagate_toplevel on every ordered conjunction of 2 (and 300 / all of 3) equalities among three Int symbols and two "
-                    "constants; plus %d arithmetic terms through TimesDistributor" % (trials, trials),
+                    "constants; plus %d arithmetic terms through TimesDistributor; both partitions on 11 nesting shapes of one connective "
+                    "(right / left / balanced nesting, shared and repeated sub-formulas, n-ary, mixed with the other connective)" % (trials, trials),
             "samples": samples, "violations": viol}
 
 
